@@ -77,6 +77,10 @@
 
 #![no_std]
 extern crate alloc;
+#[cfg(feature = "verif_hooks")]
+extern crate std;
+#[cfg(feature = "verif_hooks")]
+pub mod verif;
 
 mod decodation;
 mod encodation;
